@@ -1110,7 +1110,6 @@ class Engine:
         if msel.SUPERSEDED == "kept":
             # outside the C06 lens: whether a superseded return value is reported is not judged
             optional |= {ev["i"] for ev in self.sim.tr.events[ob["lo"]:ob["hi"]] if ev.get("superseded")}
-            optional.discard(-1)
         ref_skip = raised_now or bool(self.fail_idx_now) or getattr(self, "ref_diverged", False)
         if exact:
             raised_now = False
@@ -1177,7 +1176,7 @@ class Engine:
                         if not uidx:
                             uidx, _ = self.inflight_unspecified(rec, ob["lo"], ob["hi"])
                         exp = [(i, d) for i, d in exp if i not in uidx]
-                    if optional and rec.spec.get("count_only"):
+                    if self.fail_idx_now and rec.spec.get("count_only"):
                         rec.exp_all.extend((self.opi, d) for d in got)
                         continue  # (an overrider struck by a failure: its own event is not in the trace)
                     if optional:
